@@ -11,7 +11,7 @@
    decidable condition on the abstract state): C23_redis_refines_spec_partial,
    C23_equiv, C23_redis_failed_create_noop_partial. *)
 From Verif Require Import Store.KVPrims Store.Ops Store.Spec Store.EtcdModel Store.RedisModel Store.Case
-  Store.EtcdProofs Store.RedisProofs Store.C23Proofs Store.KeyStrings.
+  Store.EtcdProofs Store.RedisProofs Store.C23Proofs Store.KeyStrings Store.RedisGlob Store.ScanOracle.
 
 Theorem C23_etcd_refines_spec : etcd_refines_spec_stmt.
 Proof. exact etcd_refines_spec_holds. Qed.
@@ -59,3 +59,16 @@ Print Assumptions C23_key_strings_injective.
 Theorem C23_prefix_scans_exact : scans_exact_stmt.
 Proof. exact scans_exact_holds. Qed.
 Print Assumptions C23_prefix_scans_exact.
+
+(* Redis: the key patterns as globs (matcher of coq/Names, C24) select exactly the
+   structural matches; escapeGlob makes metacharacters in names harmless *)
+Theorem C23_redis_patterns_exact : redis_patterns_exact_stmt.
+Proof. exact redis_patterns_exact_holds. Qed.
+Print Assumptions C23_redis_patterns_exact.
+
+(* Redis: for every order in which SCAN may return the keys, a limited pattern
+   read fetches exactly min(limit, matches) matching records (the count of the
+   etcd range read), and the same set when the limit does not truncate *)
+Theorem C23_redis_scan_order_oracle : scan_oracle_stmt.
+Proof. exact scan_oracle_holds. Qed.
+Print Assumptions C23_redis_scan_order_oracle.
